@@ -33,6 +33,7 @@ import KafkaVerif.Lemmas.ConnOps
 import KafkaVerif.Lemmas.ConnLocal
 import KafkaVerif.Model.ConnSpecs
 import KafkaVerif.Spec.ConnFrames
+import KafkaVerif.Model.ReaderStack
 
 namespace KV.C11
 open KV KV.Reader KV.ConnOps
@@ -304,6 +305,86 @@ theorem idealBody_conserves : idealBody.Conserves := by
     · refine ⟨s.inp, by simp, ?_⟩; simp only; omega
     · refine ⟨s.inp.take s.sz, (List.take_append_drop _ _).symm, ?_⟩
       simp only [List.length_take]; omega
+
+/-! ### message_reader.go: the reader stack keeps the frame accounting (the `Body` hypothesis, discharged)
+
+`fetch_aligned_or_closed` assumes the message-set reader conserves bytes.  Model/ReaderStack.lean models what in
+message_reader.go decides that: which reader of the stack a read touches, how a compressed batch / wrapper is charged
+to the root's `remain`, and what `discard()` discards.  The three statements involved are regenerated facts. -/
+
+section ReaderStackSec
+open KV.ReaderStack
+
+theorem rootTake_adv (r : RS) (k : Nat) (h1 : k ≤ r.sz) (h2 : k ≤ r.inp.length) : Adv r (rootTake r k k) :=
+  ⟨r.inp.take k, (List.take_append_drop k r.inp).symm, by simp only [rootTake, List.length_take]; omega⟩
+
+/-- with the three accounting facts, every operation of the reader stack keeps the root's `remain` in step with the bytes
+taken from the Conn -/
+theorem stack_step_adv (f : Facts) (hf : f.all = true) (m : MSR) (o : Op) : Adv m.root (ReaderStack.step f m o).root := by
+  have h : f.discardRewinds = true ∧ f.v2AccountsConsumed = true ∧ f.v1AccountsConsumed = true := by
+    simpa [Facts.all, and_assoc] using hf
+  cases o with
+  | read n =>
+    simp only [ReaderStack.step]
+    cases m.children with
+    | nil => exact conserves_discardN n m.root
+    | cons c cs => exact Adv.refl _
+  | pushV2 b u d =>
+    simp only [ReaderStack.step]
+    cases m.children with
+    | nil => simp only [h.2.1, ↓reduceIte]; exact rootTake_adv _ _ (by omega) (by omega)
+    | cons c cs => exact Adv.refl _
+  | pushV1 n u d =>
+    simp only [ReaderStack.step]
+    cases m.children with
+    | nil => simp only [h.2.2, ↓reduceIte]; exact rootTake_adv _ _ (by omega) (by omega)
+    | cons c cs => exact Adv.refl _
+  | pop => exact Adv.refl _
+  | discard =>
+    simp only [ReaderStack.step, h.1, ↓reduceIte]
+    exact conserves_discardN _ m.root
+
+theorem stack_run_adv (f : Facts) (hf : f.all = true) : ∀ (os : List Op) (m : MSR), Adv m.root (ReaderStack.run f m os).root
+  | [], m => Adv.refl _
+  | o :: os, m => Adv.trans (stack_step_adv f hf m o) (stack_run_adv f hf os _)
+
+/-- `discard()` (Batch.close, end of batch) leaves nothing of the fetch response unread, whatever is on the stack -/
+theorem stack_discard_empties (f : Facts) (hf : f.all = true) (m : MSR) (he : m.root.sz ≤ m.root.inp.length) :
+    (ReaderStack.step f m .discard).root = ⟨m.root.inp.drop m.root.sz, 0⟩ ∧ (ReaderStack.step f m .discard).children = [] := by
+  have h : f.discardRewinds = true := by
+    have : f.discardRewinds = true ∧ f.v2AccountsConsumed = true ∧ f.v1AccountsConsumed = true := by
+      simpa [Facts.all, and_assoc] using hf
+    exact this.1
+  simp only [ReaderStack.step, h, ↓reduceIte, discardN_all_enough m.root he, and_self]
+
+/-- the code as it is now has the three accounting statements (regenerated) -/
+theorem reader_stack_facts_hold : Gen.ConnLegacy.readerStackFacts.all = true := by decide
+
+/-- the modelled message-set reader is a `Body` that conserves bytes: the hypothesis of `fetch_aligned_or_closed` /
+`fetch_cut_is_error` is discharged for it (any operation sequences, any error it ends with) -/
+def stackBody (f : Facts) (ops1 ops2 : List Op) (e1 : Option Err) (e2 : Err) : Body where
+  first := fun s => (match e1 with | some e => .error e | none => .ok (), (ReaderStack.run f ⟨s, []⟩ ops1).root)
+  rest := fun s => (e2, (ReaderStack.run f ⟨s, []⟩ ops2).root)
+
+theorem stackBody_conserves (f : Facts) (hf : f.all = true) (ops1 ops2 : List Op) (e1 : Option Err) (e2 : Err) :
+    (stackBody f ops1 ops2 e1 e2).Conserves :=
+  ⟨fun s => stack_run_adv f hf ops1 ⟨s, []⟩, fun s => stack_run_adv f hf ops2 ⟨s, []⟩⟩
+
+/-- the two seeded shapes, as runs of the model: (1) `discard()` that only unwinds exhausted readers — closing part-way
+through a compressed batch leaves the rest of the response on the Conn; (2) a compressed v2 batch always counted as
+fully consumed — `remain` reaches 0 although the stream ended inside the payload. -/
+theorem reader_stack_counterexamples :
+    (let f : Facts := ⟨false, true, true⟩
+     let m := ReaderStack.run f ⟨⟨List.replicate 100 0, 100⟩, []⟩ [.read 61, .pushV2 20 20 50, .read 10, .discard]
+     m.root.sz = 19 ∧ m.root.inp.length = 19) ∧
+    (let f : Facts := ⟨true, false, true⟩
+     let m := ReaderStack.run f ⟨⟨List.replicate 70 0, 100⟩, []⟩ [.read 61, .pushV2 39 39 0, .pop, .discard]
+     m.root.sz = 0 ∧ m.root.inp.length = 0) ∧
+    (let f : Facts := ⟨true, true, true⟩
+     let m := ReaderStack.run f ⟨⟨List.replicate 70 0, 100⟩, []⟩ [.read 61, .pushV2 39 39 0, .pop, .discard]
+     m.root.sz = 30) := by decide
+
+end ReaderStackSec
 
 /-! ### listOffsets: the one operation that relies on the shape of a well-formed frame -/
 
